@@ -306,6 +306,19 @@ func LoadReplay(path string, into interface{}) error {
 	return json.Unmarshal(w.Input, into)
 }
 
+// ReplayPart returns the "part" a replay file belongs to ("" if it names none).
+func ReplayPart(path string) string {
+	b, err := os.ReadFile(path)
+	if err != nil {
+		return ""
+	}
+	var w struct {
+		Part string `json:"part"`
+	}
+	json.Unmarshal(b, &w)
+	return w.Part
+}
+
 // TomlStr quotes a string for a TOML basic string (control bytes as \uXXXX).
 func TomlStr(s string) string {
 	var sb strings.Builder
